@@ -9,15 +9,17 @@ HARNESS_SRC = 'struct_harness.c'
 LIB_SRCS = ['Lib/structs/queue.c', 'Lib/structs/stack.c', 'Lib/structs/list.c', 'Lib/utils/mem.c', 'Lib/utils/log.c']
 RULE = ('one container per script (queue | stack | list, with/without destructor, list with/without comparator v%8); '
         'random scripts over enq/deq/push/pop/ins/rm/find/peek/len/clear/free/iterate and it new/next/get/set/rm/ins, '
-        'generated so that the container is modified only through the iterator while one is live (iterator invalidation '
-        'rule; free abandons it), with NULL data, NULL handles (after free) and NULL iterators mixed in; plus ALL such '
+        'generated so that while an iterator is live the container is modified only through it or by enqueue (iterator '
+        'invalidation rule; free abandons it), with NULL data, NULL handles (after free) and NULL iterators mixed in; plus ALL such '
         'sequences of mutating ops up to the exhaustive bound followed by every observer; non-trivial = an iterator op '
         'or a removal acted on a non-empty container')
 # exhaustive bound: number of ops after `new` (observers only in the last position, see exhaustive())
-EXHAUSTIVE = {'quick': {'queue': 6, 'stack': 6, 'list': 5}, 'thorough': {'queue': 8, 'stack': 8, 'list': 6}}
+EXHAUSTIVE = {'quick': {'queue': 6, 'stack': 6, 'list': 5}, 'thorough': {'queue': 8, 'stack': 7, 'list': 6}}
 
 KINDS = ('queue', 'stack', 'list')
 MUT = {'queue': ('enq', 'deq', 'rm', 'clear'), 'stack': ('push', 'pop', 'rm', 'clear'), 'list': ('ins', 'rm', 'clear')}
+# calls that invalidate a live iterator (m_queue_enqueue only appends behind the last node: it does not)
+INVALIDATES = {'queue': ('deq', 'rm', 'clear'), 'stack': ('push', 'pop', 'rm', 'clear'), 'list': ('ins', 'rm', 'clear')}
 
 
 def cmp_eq(a, b):
@@ -134,7 +136,8 @@ def parse_new(line):
 
 def wellformed(lines):
     """API precondition: the script creates its container first, and while an iterator is live the
-    container is modified only through the iterator (`free` abandons the iterator)."""
+    container is modified only through the iterator or, for a queue, by enqueue (`free` abandons the
+    iterator)."""
     if not lines:
         return False
     hd = parse_new(lines[0])
@@ -146,7 +149,7 @@ def wellformed(lines):
         try:
             if not t or t[0] == 'new':
                 return False
-            if t[0] in MUT[sim.kind] and sim.live_itr():
+            if t[0] in INVALIDATES[sim.kind] and sim.live_itr():
                 return False
             if not sim.op(t):
                 return False
@@ -177,6 +180,7 @@ def random_script(rng, n_ops):
             elif r < 0.65: ln = 'it set %d' % v
             elif r < 0.75: ln = 'it get'
             elif r < 0.85 and kind == 'list': ln = 'it ins %d' % v
+            elif r < 0.83 and kind == 'queue': ln = 'enq %d' % v
             elif r < 0.88: ln = 'it new'
             elif r < 0.90: ln = 'free'
             elif r < 0.93: ln = 'len'
@@ -226,7 +230,7 @@ def exhaustive(kind, dtor, cmp, depth, vals):
         adds = ['%s %d' % (add, v) for v in vals] if kind == 'list' else ['%s %d' % (add, nadd + 1)]
         live = sim.live_itr()
         if live:
-            cand = it_ops + ['it new', 'free']
+            cand = it_ops + ['it new', 'free'] + (adds if kind == 'queue' else [])
         elif sim.alive:
             cand = adds + take + ['clear', 'free', 'it new']
         else:
@@ -345,7 +349,10 @@ def spec(lines, out):
                 new_arr = seq if (seq == arr) else arr          # NULL data: must not change anything
             elif res != '0':
                 v.append(('fifo' if kind != 'list' else 'list', '`%s` failed: %s' % (ln, res)))
-            elif kind == 'queue': new_arr = arr + [val]
+            elif kind == 'queue':
+                new_arr = arr + [val]
+                if cands is not None:
+                    cands = set((td + 1, ci) for td, ci in cands)
             elif kind == 'stack': new_arr = [val] + arr
             else:
                 if not one_insert_positions(arr, seq, val):
@@ -500,7 +507,7 @@ def spec(lines, out):
             clause = 'iter' if o == 'it' else ('list' if kind == 'list' else ('fifo' if kind == 'queue' else 'lifo'))
             v.append((clause, 'after `%s` the content is %s, expected %s' % (ln, seq, new_arr)))
             new_arr = seq          # resynchronise so that one defect is reported once
-            if cands is not None and o != 'it':
+            if cands is not None and o != 'it' and o != 'enq':
                 cands = None
         if alive and ln_n != len(seq):
             v.append(('len', 'after `%s` the length is %d, content %s' % (ln, ln_n, seq)))
